@@ -73,6 +73,16 @@ void SoPlexBase<R>::_optimizeRational(volatile bool* interrupt)
                        _basisStatusCols.size());
    }
 
+   // iterative refinement works on the unscaled floating-point LP: undo a persistent scaling left by an earlier
+   // floating-point solve (otherwise unscaled data is written into the scaled LP and the copy made for
+   // preprocessing loses the scaler)
+   if(_realLP->isScaled())
+   {
+      _solver.unscaleLPandReloadBasis();
+      _isRealLPScaled = false;
+      ++_unscaleCalls;
+   }
+
    // store objective, bounds, and sides of Real LP in case they will be modified during iterative refinement
    _storeLPReal();
 
